@@ -112,7 +112,9 @@ class Average(Metric):
       raise TypeError(f"Expected keyword argument '{self.argname}'")
     values: tp.Union[int, float, jax.Array] = kwargs[self.argname]
     self.total.value += (
-        values if isinstance(values, (int, float)) else values.sum()
+        values
+        if isinstance(values, (int, float))
+        else values.sum(dtype=jnp.float32)
     )
     self.count.value += 1 if isinstance(values, (int, float)) else values.size
 
@@ -190,10 +192,16 @@ class Welford(Metric):
     original_count = self.count.value
     self.count.value += count
     delta = (
-        values if isinstance(values, (int, float)) else values.mean()
+        values
+        if isinstance(values, (int, float))
+        else values.mean(dtype=jnp.float32)
     ) - self.mean.value
     self.mean.value += delta * count / self.count.value
-    m2 = 0.0 if isinstance(values, (int, float)) else values.var() * count
+    m2 = (
+        0.0
+        if isinstance(values, (int, float))
+        else values.var(dtype=jnp.float32) * count
+    )
     self.m2.value += (
         m2 + delta * delta * count * original_count / self.count
     )
